@@ -394,4 +394,42 @@ theorem tie_aes_read (P : AesPrims) (hW : P.WF) (S : Src σ) (v : Valid σ) (buf
         · have hle' : bs.length > v.dataRemaining := by omega
           simp [hle, hle', outRead, eraseMsg]
 
+/-- The case excluded by `hSl` above: the inner reader returns MORE than the buffer holds (and not more
+than `data_remaining`).  Source and model both panic at `&buf[0..read]`; the source has already executed
+`self.data_remaining -= read`, the model's state at that panic has not (the state after a panic is not
+observable; the model keeps its invariant there). -/
+theorem tie_aes_read_overlong (P : AesPrims) (S : Src σ) (v : Valid σ) (buf : Bytes)
+    (hbuf : buf.length < 2 ^ 64) (hrem : v.dataRemaining < 2 ^ 64) (hin : SmallA S)
+    (bs : Bytes) (s' : σ) (hr : S.rd v.inner (min v.dataRemaining buf.length) = (.ok bs, s'))
+    (h1 : buf.length < bs.length) (h2 : bs.length ≤ v.dataRemaining) :
+    (@Gen.AesReaderValid.read (primsOf P) (dynOf P) σ (readOfA S) (toGen P v) buf).1 = .panic ∧
+      ∃ m, (Valid.read P S v buf.length).1 = .panic m := by
+  have h0 : ¬ v.dataRemaining = 0 := by omega
+  have hs := hin _ _ _ _ hr
+  have hn : min v.dataRemaining buf.length ≤ buf.length := Nat.min_le_right _ _
+  have hn0 : min v.dataRemaining buf.length < 2 ^ 64 := by omega
+  have hE : ¬ (bs.length = 0 ∧ min v.dataRemaining buf.length ≠ 0) := by omega
+  have hle' : ¬ bs.length > v.dataRemaining := by omega
+  constructor
+  · unfold Gen.AesReaderValid.read
+    have hlen : Rs.len buf = UInt64.ofNat buf.length := rfl
+    have htl : (buf.take (min v.dataRemaining buf.length)).length = min v.dataRemaining buf.length := by
+      simp [List.length_take]
+    have hne : (UInt64.ofNat (min v.dataRemaining buf.length) != 0) =
+        !decide (min v.dataRemaining buf.length = 0) := by
+      show (!(UInt64.ofNat (min v.dataRemaining buf.length) == 0)) = _
+      rw [ofNat_eq_zero_iff hn0]
+    have hE' : (decide (bs.length = 0) && !decide (min v.dataRemaining buf.length = 0)) = false := by
+      have : ¬ bs.length = 0 := by omega
+      simp [this]
+    simp only [Id.run, Rs.L.id_pure, toGen, ofNat_eq_zero_iff hrem, h0, decide_false, Bool.false_eq_true, if_false,
+      hlen, Rs.as', Rs.As.cast, id, min_ofNat hrem hbuf, slice0 buf hn0, hn, if_true, read_readOfA, htl, hr,
+      ofNat_eq_zero_iff hs, hne, hE', arith_sub_ofNat hrem hs, h2, slice0 _ hs, buf1_length bs buf _ hn]
+    have hlb : ¬ bs.length ≤ buf.length := by omega
+    simp [hlb]
+  · unfold Valid.read
+    have hsl : bs.length > buf.length := h1
+    simp only [h0, if_false, hr, hE, hle', hsl, if_true]
+    exact ⟨_, rfl⟩
+
 end ZipVerif.Tie.AesLayer
